@@ -836,6 +836,19 @@ func (fc *FnCtx) modelCall(st *State, e *ast.CallExpr, fn *types.Func, full stri
 			fc.assumeGlobal(b("(and (>= %s (- 1)) (< %s (strlen %s)))", r.S, r.S, args[0].S))
 		}
 		return []Term{r}, true
+	case "strings.TrimSpace", "strings.TrimLeft", "strings.TrimRight", "strings.Trim":
+		// a substring of the argument: no longer than it
+		fname := "str_" + strings.ToLower(fn.Name())
+		sorts := make([]string, len(args))
+		var as []string
+		for i, a := range args {
+			sorts[i] = a.Sort
+			as = append(as, a.S)
+		}
+		fc.declareFun(fname, sorts, SStr)
+		t := Term{S: fmt.Sprintf("(%s %s)", fname, strings.Join(as, " ")), Sort: SStr, T: types.Typ[types.String]}
+		fc.assumeGlobal(b("(and (>= (strlen %s) 0) (<= (strlen %s) (strlen %s)))", t.S, t.S, args[0].S))
+		return []Term{t}, true
 	case "strings.Contains":
 		fc.declareFun("str_contains", []string{SStr, SStr}, SBool)
 		t := b("(str_contains %s %s)", args[0].S, args[1].S)
